@@ -223,6 +223,8 @@ func buildAF(class string, r *rng) *astits.PacketAdaptationField {
 				HasSeamlessSplice: true, SpliceType: uint8(r.intn(16)), DTSNextAccessUnit: &astits.ClockReference{Base: cr33(r)}}}
 	case "big":
 		return &astits.PacketAdaptationField{HasTransportPrivateData: true, TransportPrivateData: r.bytes(180), TransportPrivateDataLength: 180}
+	case "bigrai": // a random access point whose adaptation field leaves no room for the PES header
+		return &astits.PacketAdaptationField{RandomAccessIndicator: true, HasPCR: true, PCR: pcr(), HasTransportPrivateData: true, TransportPrivateData: r.bytes(170), TransportPrivateDataLength: 170}
 	}
 	fatal("unknown AF class %q", class)
 	return nil
@@ -243,6 +245,8 @@ func afTotalLen(class string) int {
 		return 2 + 6 + 6 + 1 + 1 + 5 + 1 + 1 + 2 + 3 + 5
 	case "big":
 		return 2 + 1 + 180
+	case "bigrai":
+		return 2 + 6 + 1 + 170
 	}
 	fatal("unknown AF class %q", class)
 	return 0
